@@ -184,6 +184,19 @@ def rule_own(env, shared):
                     if lds_:
                         rs_call = (bi_, t_, None, lo_, lds_)
             if rs_call is None:
+                # the split done by std: `taken_vec.split_off(lo)` returns the tail [lo, len) as a vector of its own (dropped
+                # as such), the vector taken out of the storage keeps [0, lo)
+                for bi, t, c in db.calls():
+                    if db.blocks[bi]["cleanup"] or c.indirect or c.key != "std::vec::Vec::split_off" or len(t["args"]) != 2:
+                        continue
+                    recv = unref(ev.operand(dctx, t["args"][0]))
+                    taken = [x for x in subterms(recv) if x[0] in ("call", "ret") and str(x[1]).endswith("ManuallyDrop::take")
+                             and x[2] and R.classify(x[2][0]) == ("store", adt)]
+                    a1 = ev.operand(dctx, t["args"][1])
+                    lds = [x for x in subterms(a1) if x[0] == "atomic" and x[1] == "load" and R.classify(x[2])[0] == "pos"]
+                    if taken and lds:
+                        rs_call = (bi, t, None, a1, lds)
+            if rs_call is None:
                 out.append(Ob("OWN.c", k, "viol", db.file_line(),
                               "Drop of %s does not hand the position counter to a remainder split: undelivered elements are "
                               "not dropped (or delivered ones are)" % nm))
@@ -305,6 +318,107 @@ def rule_own(env, shared):
                                       "%s drops the vector taken out of the storage of %s with its length intact: every element "
                                       "it still lists — delivered to callers or already dropped with the remainder — is dropped "
                                       "again" % (env.fname(b), nm)))
+        # ---- (f, unwinding) the same on unwind paths: between taking the vector out of the storage and `set_len(0)` (or
+        #          moving it on), nothing may unwind — an unwinding there drops the taken vector with its length intact, i.e.
+        #          every delivered element a second time. Terminators that cannot unwind: a whitelist of std functions,
+        #          `split_off(at)` with `at <= len` entailed, and the panic of a debug_assert! (whose condition is entailed at
+        #          every call site: PRE.dbg).
+        SAFE = ("std::vec::Vec::set_len", "std::mem::ManuallyDrop::new", "std::mem::ManuallyDrop::take",
+                "std::cell::UnsafeCell::get_mut", "std::cell::UnsafeCell::get", "std::ops::DerefMut::deref_mut",
+                "std::ops::Deref::deref", "std::vec::Vec::len", "std::vec::Vec::as_mut_ptr", "std::vec::Vec::as_ptr",
+                "std::vec::Vec::capacity", "std::mem::forget", "std::vec::Vec::from_raw_parts")
+        for b in own_bodies:
+            if F.impl_self_adt(b) != adt:
+                continue
+            ctxb = env.ctx(b, adt, w)
+            for bi, t, c in b.calls():
+                if b.blocks[bi]["cleanup"] or c.key != "std::mem::ManuallyDrop::take":
+                    continue
+                if R.classify(ev.operand(ctxb, t["args"][0])) != ("store", adt):
+                    continue
+                dl = t["dest"]["l"]
+                if "Vec<" not in b.locals[dl]["ty"]["s"]:
+                    continue
+                al = _alias_locals(b, dl)
+                cdrops = {bj for bj, blk in enumerate(b.blocks) if blk["cleanup"] and blk["term"]["k"] == "drop"
+                          and not blk["term"]["place"]["p"] and blk["term"]["place"]["l"] in al}
+                if not cdrops:
+                    continue
+                k = "OWN.f|%s|%s|taken-storage-unwind" % (nm, env.fname(b))
+                bad = None
+                for bu in sorted(b.reachable(0)):
+                    blk = b.blocks[bu]
+                    tu = blk["term"]
+                    if blk["cleanup"] or tu["k"] not in ("call", "drop", "assert"):
+                        continue
+                    u0 = tu.get("unwind")
+                    if not isinstance(u0, int):
+                        continue
+                    # does its cleanup chain drop the taken vector?
+                    seen, st, hits = set(), [u0], False
+                    while st:
+                        x = st.pop()
+                        if x in seen:
+                            continue
+                        seen.add(x)
+                        if x in cdrops:
+                            hits = True
+                        st.extend(b.succ(x, unwind=True))
+                    if not hits:
+                        continue
+                    # zeroed before?
+                    zeroed = any(c2.key == "std::vec::Vec::set_len" and b.dominates(bk, bu) and bk != bu
+                                 and unref(ev.operand(ctxb, t2["args"][1])) == ("int", 0) for bk, t2, c2 in b.calls())
+                    if zeroed:
+                        continue
+                    if tu["k"] == "assert" and tu["msg"] in ("MisalignedPointer", "NullPointer"):
+                        continue
+                    if tu["k"] == "call":
+                        cu = b.callee(bu)
+                        if cu is not None and not cu.indirect:
+                            if cu.key in SAFE:
+                                continue
+                            if "debug_assert" in (tu["loc"].get("expn") or "") or "debug_assert" in (tu["loc"].get("outer_macro") or ""):
+                                continue
+                            if cu.key == "std::vec::Vec::split_off" and len(tu["args"]) == 2:
+                                at = m.canon(unref(ev.operand(ctxb, tu["args"][1])))
+                                fs = [tuple(m.canon(x) if isinstance(x, tuple) else x for x in f) for f in block_facts(ev, ctxb, bu)]
+                                if CProver(fs, ev, ctxb).le(at, m.canon(r["len_term"])):
+                                    continue
+                                at0 = unref(ev.operand(ctxb, tu["args"][1]))
+                                if at0[0] == "param" and not (b.info or {}).get("exported"):
+                                    # a private helper: judged at its call sites (the value every caller passes is <= LEN)
+                                    cs = [(cb_, cbb_) for (cb_, cbb_) in all_callers(env, b.def_) if cb_.def_ != b.def_]
+                                    okc = bool(cs)
+                                    for (cb_, cbb_) in cs:
+                                        cctx_ = env.ctx(cb_, F.impl_self_adt(cb_) or adt, w)
+                                        args_ = cb_.term(cbb_)["args"]
+                                        if at0[1] - 1 >= len(args_):
+                                            okc = False
+                                            continue
+                                        av = m.canon(unref(ev.operand(cctx_, args_[at0[1] - 1])))
+                                        fs_ = [tuple(m.canon(x) if isinstance(x, tuple) else x for x in f)
+                                               for f in block_facts(ev, cctx_, cbb_)]
+                                        if not CProver(fs_, ev, cctx_).le(av, m.canon(r["len_term"])):
+                                            okc = False
+                                    if okc:
+                                        continue
+                    if tu["k"] == "drop" and "Vec<" not in tu["ty"]["s"] and tu["place"]["l"] in al:
+                        continue
+                    bad = (bu, tu)
+                    break
+                if bad:
+                    bu, tu = bad
+                    cu = b.callee(bu) if tu["k"] == "call" else None
+                    what = ("call " + cu.key) if (cu is not None and not cu.indirect) else tu["k"]
+                    out.append(Ob("OWN.f", k, "viol", b.file_line(tu["loc"]),
+                                  "%s can unwind from `%s` while the vector taken out of the storage of %s still has its length: "
+                                  "the unwinding drops it and with it every element it lists — delivered to callers, or dropped "
+                                  "with the remainder — a second time (set its length to 0 first)" % (env.fname(b), what, nm)))
+                else:
+                    out.append(Ob("OWN.f", k, "ok", b.file_line(t["loc"]),
+                                  "nothing can unwind between taking the vector out of the storage and zeroing / re-wrapping it",
+                                  True))
         # ---- (e) a non-destructive remainder split (raw reads) leaves the storage intact: a by-value caller must mark
         #          the iterator exhausted afterwards, or its implicit Drop splits the same remainder off again
         if dfn and dfn in F.bodies:
